@@ -81,6 +81,9 @@ def _cases(ctx, nl):
             hist['immersed'] = hist.get('immersed', 0) + 1
             if rng.random() < 0.5:
                 spec['aperture'] = ['objectNA', rng.uniform(0.02, 0.3)]
+        if li >= len(corp) and li % 5 == 4 and len(spec['fields']) > 1:
+            lensgen.reorder_fields(spec, rng)      # the maximum field does not depend on the order of the field list
+            hist['fields_reordered'] = hist.get('fields_reordered', 0) + 1
         edits = []
         try:
             o = lensgen.build(spec)
